@@ -226,20 +226,45 @@ def r2_pairing(ctx, prog):
             r.ok(f['qname'], site, '%d abstract return paths' % len(a.rets), file=f['file'], line=f['line'])
 
 
-def writes_of(prog, qname, depth=3, seen=None):
-    """Fields (fq names) written, transitively, by a function: assignments, non-const method calls on fields, delete of fields."""
+def pruned_walk(node, assume):
+    """walk() that does not enter branches excluded by `assume` ({field name: truth}) when the condition is the bare field or its negation."""
+    if not isinstance(node, dict):
+        return
+    yield node
+    if node.get('k') == 'If' and assume:
+        c = node['c']
+        neg = False
+        while c.get('k') == 'Un' and c.get('op') == '!':
+            c, neg = c['e'], not neg
+        if c.get('k') == 'Member' and c.get('base', {}).get('k') == 'This' and c['field'] in assume:
+            truth = assume[c['field']] != neg
+            yield from pruned_walk(node['c'], assume)
+            yield from pruned_walk(node['t'] if truth else node.get('e'), assume)
+            return
+    for k, v in node.items():
+        if isinstance(v, dict):
+            yield from pruned_walk(v, assume)
+        elif isinstance(v, list):
+            for x in v:
+                if isinstance(x, dict):
+                    yield from pruned_walk(x, assume)
+
+
+def writes_of(prog, qname, depth=3, seen=None, assume=None):
+    """Fields (fq names) written, transitively, by a function: assignments, non-const method calls on fields, delete of fields.
+    assume: {field: truth} — branches that the bare flag excludes are not looked at (what the function writes *while a transaction is open*)."""
     seen = seen if seen is not None else set()
     out = set()
     if qname in seen or depth < 0:
         return out
     seen.add(qname)
     for f in prog.fns(qname):
-        for n in walk(f['body']):
+        for n in (pruned_walk(f['body'], assume) if assume else walk(f['body'])):
             k = n.get('k')
             if k == 'Assign':
                 t = n['a']
-                while t.get('k') in ('Index',) or (t.get('k') == 'Call' and short(t.get('callee')) == 'operator[]'):
-                    t = t.get('base') or t.get('recv')
+                while t.get('k') in ('Index', 'Paren') or (t.get('k') == 'Call' and short(t.get('callee')) == 'operator[]') or (t.get('k') == 'Un' and t.get('op') == '*'):
+                    t = t.get('base') or t.get('recv') or t.get('e')
                 if t.get('k') == 'Member' and t.get('base', {}).get('k') == 'This':
                     out.add(t['fq'])
             elif k == 'Call':
@@ -247,7 +272,7 @@ def writes_of(prog, qname, depth=3, seen=None):
                 if rcv is not None and rcv.get('k') == 'Member' and rcv.get('base', {}).get('k') == 'This' and not n.get('const') and not is_pure_name(short(n.get('callee'))):
                     out.add(rcv['fq'])
                 if n.get('own') and n.get('callee') and (rcv is None or rcv.get('k') == 'This'):
-                    out |= writes_of(prog, n['callee'], depth - 1, seen)
+                    out |= writes_of(prog, n['callee'], depth - 1, seen, assume)
                     if n.get('virtual'):
                         pass
             elif k == 'Delete' and n['e'].get('k') == 'Member':
@@ -259,8 +284,8 @@ def r3_rollback(ctx, prog):
     r = ctx.rule('C09.R3', 'abortTransaction undoes what setAttribute did inside the transaction (every OSObject implementation)', floor=2, engine='E7')
     impls = sorted(c for c in prog.subclasses('OSObject') if prog.fns(c + '::setAttribute'))
     for cls in impls:
-        setw = writes_of(prog, cls + '::setAttribute')
-        abw = writes_of(prog, cls + '::abortTransaction')
+        setw = writes_of(prog, cls + '::setAttribute', assume={'_transaction': True, 'inTransaction': True})
+        abw = writes_of(prog, cls + '::abortTransaction', assume={'_transaction': True, 'inTransaction': True})
         stw = writes_of(prog, cls + '::startTransaction')
         f = prog.fn(cls + '::abortTransaction')
         ctx.analysed(f)
@@ -328,4 +353,6 @@ MUTANTS = [
          old='\t\t\tosobject->abortTransaction();\n\t\t\treturn CKR_ATTRIBUTE_TYPE_INVALID;', new='\t\t\treturn CKR_ATTRIBUTE_TYPE_INVALID;'),
     dict(name='objectfile-destroy-refuses-invalid', rule='C09.R4', file='src/lib/object_store/ObjectFile.cpp', after='bool ObjectFile::destroyObject()',
          old='{\n', new='{\n\tif (!valid) return false;\n'),
+    dict(name='sessionobject-abort-keeps-changes', rule='C09.R3', file='src/lib/object_store/SessionObject.cpp', after='bool SessionObject::abortTransaction()',
+         old='\tattributes.swap(savedAttributes);\n\tdiscardSavedAttributes();', new='\tdiscardSavedAttributes();'),
 ]
